@@ -126,3 +126,17 @@ def parse_tx(raw):
             i[4] = [take(cs()) for _ in range(cs())]
     locktime = from_le(take(4))
     return version, [tuple(i) for i in ins], outs, locktime, has_witness, pos
+
+
+def tx_in_step(acc, x, j):
+    """one input of the non-witness serialisation: outpoint, var_str unlocking script, sequence"""
+    return acc + x.prev_txid[::-1] + x.output_n[::-1] + ser_string(x.unlocking_script) + le(x.sequence, 4)
+
+
+def ser_tx_rec(version, inputs, outputs, locktime):
+    """non-witness transaction serialisation for lists of ANY length, on records (prev_txid in RPC order, output_n big-endian,
+    unlocking_script, sequence; value, lock_script): ser_tx with the two loops written as left folds"""
+    from pyvc.api import fold
+    from spec.sighash import out_step
+    return (le(version, 4) + compact_size(len(inputs)) + fold(tx_in_step, b'', inputs, len(inputs), key='tx-in')
+            + compact_size(len(outputs)) + fold(out_step(ser_string), b'', outputs, len(outputs), key='tx-out') + le(locktime, 4))
